@@ -289,6 +289,20 @@ func pinnedCases() []pinned {
 		m3.Headers = []*schema.Header{{Name: "X-Count", Type: "integer", Required: true}}
 		innerCase("C09", "C09/ts_server_validates_service_and_method_header.json", "both", "c08", "PinService.Do", s3, "ts_header_override_not_merged")
 	}
+	{
+		s, _, resp, _, _ := baseSchema("p0080")
+		resp.Fields = append(resp.Fields, fld("total", 2, schema.KInt32, schema.Singular))
+		innerCase("C07", "C07/required_property_omitted_when_zero.json", "both", "c07", "PinService.Do", s, "ts_required_but_omitted_when_zero")
+		s2, req2, _, m2, _ := baseSchema("p0081")
+		m2.Verb, m2.Path = 3, "/things/{num}"
+		req2.Fields = []*schema.Field{fld("num", 1, schema.KInt32, schema.Singular), fld("name", 2, schema.KString, schema.Singular)}
+		innerCase("C07", "C07/ts_handler_path_param_is_string.json", "both", "c07", "PinService.Do", s2, "ts_handler_path_params_typed_as_strings")
+		s3, _, resp3, _, _ := baseSchema("p0082")
+		child := &schema.Message{Name: "Extra", Fields: []*schema.Field{fld("note", 1, schema.KString, schema.Singular)}}
+		s3.Files[0].Messages = append(s3.Files[0].Messages, child)
+		resp3.Fields = append(resp3.Fields, &schema.Field{Name: "extra", Number: 2, Kind: schema.KMessage, TypeRef: s3.Pkg + ".Extra", Card: schema.Singular, Ann: &schema.Ann{EmptyBehavior: 2}})
+		innerCase("C07", "C07/empty_behavior_null_not_in_type.json", "both", "c07", "PinService.Do", s3, "ts_empty_behavior_null_not_declared")
+	}
 	// ---- C19 ----
 	rules := func(id string, fields ...*schema.Field) *schema.Schema {
 		pkg := id + ".rules.v1"
